@@ -1,11 +1,12 @@
 (* Correspondence for C09: every call of the stream returns a value or an error.
    Spec side (code 2): 1 the call panicked on the calling goroutine, 2 it did not return within the
    watchdog although the transport had answered / the context was cancelled, 3 (reported by the driver
-   as a process abort) a background goroutine killed the process.  The inventory of syntactic partial
+   as a process abort) a background goroutine killed the process, 4 more was read from a server body
+   than the documented size cap allows.  The inventory of syntactic partial
    operations of the source is advisory (case 0 always has outcome 0): sites outside the reviewed
    list raise the stream's budget and are recorded in the evidence, they do not fail the check. *)
 From NCG Require Export Model.Base.
-Record case := mk { c_id : Z; c_kind : Z; c_outcome : Z (* 0 returned | 1 panicked | 2 hung *) }.
+Record case := mk { c_id : Z; c_kind : Z; c_outcome : Z (* 0 returned | 1 panicked | 2 hung | 4 read beyond the size cap *) }.
 Definition check_case (c : case) : verdict :=
   if c_outcome c =? 0 then (c_id c, 0, 0)
   else (c_id c, 2, c_outcome c).
